@@ -419,6 +419,10 @@ fn serialise_router_advertisement(a: &RtrAdvertisement) -> Vec<u8> {
             }
             NDOptionValue::RecursiveDnsServers((lifetime, servers)) => {
                 use std::convert::TryFrom as _;
+                if servers.is_empty() {
+                    /* RFC8106 Section 5.1: an RDNSS option carries at least one address. */
+                    continue;
+                }
                 v.serialise(RDNSS.0);
                 v.serialise(u8::try_from(1 + servers.len() * 2).unwrap());
                 v.serialise(0_u16); // Reserved / Padding.
@@ -428,6 +432,10 @@ fn serialise_router_advertisement(a: &RtrAdvertisement) -> Vec<u8> {
                 }
             }
             NDOptionValue::DnsSearchList((lifetime, suffixes)) => {
+                if suffixes.is_empty() {
+                    /* RFC8106 Section 5.2: a DNSSL option carries at least one domain. */
+                    continue;
+                }
                 let mut dnssl = Serialise::default();
                 for suffix in suffixes {
                     for label in suffix.split('.') {
